@@ -112,6 +112,7 @@ type thread struct {
 	done     bool
 	started  bool
 	poison   bool
+	held     []unsafe.Pointer // write locks granted to this thread and not yet noted as released
 	exiting  bool
 	fired    bool // for AfterFunc callback threads
 	// unbuffered rendezvous: the scheduler has paired this (receiving) thread with a sender
@@ -764,6 +765,7 @@ func (e *exec) runThread(t *thread) bool {
 			e.locks[m.obj] = st
 		}
 		st.writer = t
+		t.addHeld(m.obj)
 	case OpRLock:
 		st := e.locks[m.obj]
 		if st == nil {
@@ -893,6 +895,26 @@ func (e *exec) resume(t *thread, sel int) bool {
 }
 
 //go:norace
+//go:norace
+func (t *thread) addHeld(obj unsafe.Pointer) {
+	for _, o := range t.held {
+		if o == obj {
+			return
+		}
+	}
+	t.held = append(t.held, obj)
+}
+
+//go:norace
+func (t *thread) dropHeld(obj unsafe.Pointer) {
+	for i, o := range t.held {
+		if o == obj {
+			t.held = append(t.held[:i], t.held[i+1:]...)
+			return
+		}
+	}
+}
+
 func (e *exec) processNotes(t *thread) {
 	m := &t.mail
 	for _, n := range m.notes {
@@ -901,6 +923,7 @@ func (e *exec) processNotes(t *thread) {
 			if st := e.locks[n.obj]; st != nil {
 				st.writer = nil
 			}
+			t.dropHeld(n.obj)
 		case noteRUnlock:
 			if st := e.locks[n.obj]; st != nil && st.readers > 0 {
 				st.readers--
@@ -957,6 +980,7 @@ func (e *exec) solo(t *thread) bool {
 			e.locks[m.obj] = st
 		}
 		st.writer = t
+		t.addHeld(m.obj)
 	case OpRLock:
 		st := e.locks[m.obj]
 		if st != nil && st.writer != nil {
@@ -1162,6 +1186,33 @@ func CondWaitPoint(obj unsafe.Pointer, ticket int) {
 	gate(OpCondWait, obj, nil, nil, false, ticket, "")
 }
 
+// ExitingWithoutLock reports whether the calling thread is being torn down (its deferred calls run
+// after the execution was abandoned) and does not hold the write lock obj: code that unlocks and
+// re-locks around a callback, with the unlock deferred by its caller, is torn down between the two,
+// and the deferred unlock must then not reach the real mutex ("unlock of unlocked mutex" is fatal).
+//
+//go:norace
+func ExitingWithoutLock(obj unsafe.Pointer) bool {
+	e := ex
+	if e == nil || e.cur == nil || !e.cur.exiting {
+		return false
+	}
+	// (the thread's own list, not the lock table: the runtime's map functions report to the race
+	// detector whatever the caller's pragma says)
+	held := false
+	for _, o := range e.cur.held {
+		if o == obj {
+			held = true
+		}
+	}
+	for _, n := range e.cur.mail.notes {
+		if n.kind == noteUnlock && n.obj == obj {
+			held = false
+		}
+	}
+	return !held
+}
+
 // TryLockPoint is a scheduling point that reports whether the lock is free, and takes it if so.
 //
 //go:norace
@@ -1180,6 +1231,7 @@ func TryLockPoint(obj unsafe.Pointer) bool {
 		return false
 	}
 	st.writer = e.cur
+	e.cur.addHeld(obj)
 	return true
 }
 
